@@ -12,6 +12,10 @@ Local Arguments Z.ltb : simpl never.
 Local Arguments Z.leb : simpl never.
 Local Arguments str_eqb : simpl never.
 
+(* the start attribute of an ordered list that does not begin at 1:  start="N"  with N in decimal *)
+Definition ol_attrs (mv : Z) : str :=
+  if mv =? 1 then [] else [32] ++ escape_html s_start ++ [61; 34] ++ escape_html (str_of_aval (AInt mv)) ++ [34].
+
 (* the HTML of the containers around an already rendered middle part *)
 Fixpoint nest_html (cs : list ctr) (hid : bool) (mid : str) : str :=
   match cs with
@@ -20,6 +24,8 @@ Fixpoint nest_html (cs : list ctr) (hid : bool) (mid : str) : str :=
                ++ [60; 47; 98; 108; 111; 99; 107; 113; 117; 111; 116; 101; 62; 10]
   | CI _ _ :: r => [60; 117; 108; 62; 10] ++ [60; 108; 105; 62] ++ (match r with [] => [] | _ => [10] end) ++ nest_html r true mid
                    ++ [60; 47; 108; 105; 62; 10] ++ [60; 47; 117; 108; 62; 10]
+  | CO d0 ds _ _ :: r => [60; 111; 108] ++ ol_attrs (int_of_digits (d0 :: ds)) ++ [62; 10] ++ [60; 108; 105; 62] ++ (match r with [] => [] | _ => [10] end)
+                         ++ nest_html r true mid ++ [60; 47; 108; 105; 62; 10] ++ [60; 47; 111; 108; 62; 10]
   end.
 
 Section R.
@@ -32,10 +38,11 @@ Definition not_hidden (p : option token) : Prop := match p with Some t => thidde
 Lemma wrapc_head cs lv hid : exists t r, wrapc s cs lv hid ch = t :: r /\ str_eqb (ttype t) s_inline = false /\ tnesting t = 1
   /\ thidden t = (match cs with [] => hid | _ => false end).
 Proof.
-  destruct cs as [|[|m k] cs]; cbn [wrapc].
+  destruct cs as [|[|m k|d0 ds dl k] cs]; cbn [wrapc].
   - destruct hid; unfold hide_para, para_ch; eexists _, _; (split; [reflexivity|]); repeat split.
   - eexists _, _. split; [reflexivity|]. repeat split.
   - eexists _, _. split; [reflexivity|]. repeat split.
+  - eexists _, _. split; [reflexivity|]. unfold ol_open_at. destruct (negb (int_of_digits (d0 :: ds) =? 1)); repeat split.
 Qed.
 
 Lemma render_inl lv prev rest :
@@ -81,6 +88,7 @@ Definition last_tok (cs : list ctr) (lv : Z) (hid : bool) : token :=
   | [] => if hid then set_hidden (pc_at lv) true else pc_at lv
   | CQ :: _ => bq_close_at lv
   | CI m _ :: _ => ul_close_at m lv
+  | CO _ _ dl _ :: _ => ol_close_at dl lv
   end.
 
 Lemma prev_hidden prev : not_hidden prev -> (match prev with Some p => thidden p | None => false end) = false.
@@ -92,7 +100,7 @@ Theorem render_wrapc : forall cs lv hid prev rest,
     exists csw, render_list o prev (wrapc s cs lv hid ch ++ rest) = Ok (csw ++ cs2, wrapc s cs lv hid ch' ++ rest')
                 /\ html_of csw = nest_html cs hid (html_of cch).
 Proof.
-  induction cs as [|[|m k] cs IH]; intros lv hid prev rest NH cs2 rest' RR.
+  induction cs as [|[|m k|d0 ds dl k] cs IH]; intros lv hid prev rest NH cs2 rest' RR.
   - (* the paragraph *)
     cbn [wrapc nest_html last_tok] in *. rewrite !para_ch_eq. destruct hid; unfold hide_para; cbn [app].
     + rewrite render_list_cons by reflexivity.
@@ -165,6 +173,45 @@ Proof.
     change (ttag (ul_open_at m lv)) with [117; 108]. change (ttag (ul_close_at m lv)) with [117; 108].
     change (ttag (li_open_at m (lv + 1))) with s_li. change (ttag (li_close_at m (lv + 1))) with s_li.
     unfold html_of in *. rewrite !flat_map_app. cbn [flat_map chunk_html app]. rewrite HW.
+    destruct cs as [|c cs']; cbn [orb negb andb]; cbv iota; cbn [app]; rewrite ?app_nil_r, <- ?app_assoc; reflexivity.
+  - (* an ordered list item *)
+    cbn [wrapc nest_html last_tok] in *. cbn [app]. rewrite <- app_assoc. cbn [app].
+    set (mv := int_of_digits (d0 :: ds)) in *.
+    destruct (wrapc_head cs (lv + 2) true) as (t0 & r0 & EH & TI0 & TN0 & TH0).
+    assert (OT : str_eqb (ttype (ol_open_at dl mv lv)) s_inline = false /\ thidden (ol_open_at dl mv lv) = false /\ tblock (ol_open_at dl mv lv) = true
+                 /\ tnesting (ol_open_at dl mv lv) = 1 /\ ttag (ol_open_at dl mv lv) = [111; 108]
+                 /\ html_of (render_attrs (ol_open_at dl mv lv)) = ol_attrs mv
+                 /\ forall prev0 next0, render_one o prev0 (ol_open_at dl mv lv) next0 = Ok (render_token o prev0 (ol_open_at dl mv lv) next0, ol_open_at dl mv lv)).
+    { unfold ol_open_at, ol_attrs. destruct (mv =? 1); cbn [negb]; repeat split; try reflexivity; intros; apply r1_default; reflexivity. }
+    destruct OT as (OT1 & OT2 & OT3 & OT4 & OT5 & OT6 & OT7).
+    rewrite render_list_cons by exact OT1. rewrite OT7. cbn [bind].
+    rewrite render_list_cons by reflexivity. rewrite (r1_default _ (li_open_g true (d0 :: ds) dl (lv + 1))) by reflexivity. cbn [bind].
+    assert (RC : render_list o (Some (last_tok cs (lv + 2) true)) (li_close_at dl (lv + 1) :: ol_close_at dl lv :: rest)
+                 = Ok (render_token o (Some (last_tok cs (lv + 2) true)) (li_close_at dl (lv + 1)) (Some (ol_close_at dl lv))
+                       ++ render_token o (Some (li_close_at dl (lv + 1))) (ol_close_at dl lv) (hd_error rest) ++ cs2,
+                       li_close_at dl (lv + 1) :: ol_close_at dl lv :: rest')).
+    { rewrite render_list_cons by reflexivity. rewrite (r1_default _ (li_close_at dl (lv + 1))) by reflexivity. cbn [bind].
+      rewrite render_list_cons by reflexivity. rewrite (r1_default _ (ol_close_at dl lv)) by reflexivity. cbn [bind]. rewrite RR. reflexivity. }
+    destruct (IH (lv + 2) true (Some (li_open_g true (d0 :: ds) dl (lv + 1))) (li_close_at dl (lv + 1) :: ol_close_at dl lv :: rest) eq_refl _ _ RC) as (csw & RW & HW).
+    rewrite RW. cbn [bind].
+    match goal with |- exists _, Ok (?a ++ ?a2 ++ csw ++ ?b ++ ?b2 ++ cs2, _) = _ /\ _ => exists (a ++ a2 ++ csw ++ b ++ b2) end.
+    split; [rewrite <- !app_assoc; reflexivity|].
+    rewrite EH. cbn [hd_error app]. unfold render_token. rewrite OT2, OT3, OT4, OT5.
+    change (thidden (ol_close_at dl lv)) with false.
+    change (thidden (li_open_g true (d0 :: ds) dl (lv + 1))) with false. change (thidden (li_close_at dl (lv + 1))) with false.
+    change (tblock (ol_close_at dl lv)) with true.
+    change (tblock (li_open_g true (d0 :: ds) dl (lv + 1))) with true. change (tblock (li_close_at dl (lv + 1))) with true.
+    change (tnesting (ol_close_at dl lv)) with (-1).
+    change (tnesting (li_open_g true (d0 :: ds) dl (lv + 1))) with 1. change (tnesting (li_close_at dl (lv + 1))) with (-1).
+    change (str_eqb (ttype (li_open_g true (d0 :: ds) dl (lv + 1))) s_inline) with false.
+    rewrite TI0, TN0, TH0, (prev_hidden prev NH).
+    change (1 =? -1) with false. change (-1 =? -1) with true. change (1 =? 1) with true. change (1 =? 0) with false. change (-1 =? 0) with false. change (-1 =? 1) with false.
+    cbn [negb andb orb]. cbv iota.
+    change (render_attrs (ol_close_at dl lv)) with (@nil chunk).
+    change (render_attrs (li_open_g true (d0 :: ds) dl (lv + 1))) with (@nil chunk). change (render_attrs (li_close_at dl (lv + 1))) with (@nil chunk).
+    change (ttag (ol_close_at dl lv)) with [111; 108].
+    change (ttag (li_open_g true (d0 :: ds) dl (lv + 1))) with s_li. change (ttag (li_close_at dl (lv + 1))) with s_li.
+    unfold html_of in *. rewrite !flat_map_app. rewrite OT6. cbn [flat_map chunk_html app]. rewrite HW.
     destruct cs as [|c cs']; cbn [orb negb andb]; cbv iota; cbn [app]; rewrite ?app_nil_r, <- ?app_assoc; reflexivity.
 Qed.
 
